@@ -43,6 +43,7 @@ type PubSub struct {
 	psClient *pubsub.Client
 	psTopic  *pubsub.Topic
 	buf      chan []byte
+	shutdown chan struct{} // closed by Shutdown. buf itself is never closed: a Dispatch may still be in flight
 	blocking bool
 	dispatch func(chan []byte, []byte, metrics.Gauge, metrics.Counter)
 
@@ -71,6 +72,7 @@ func NewPubSub(key string, matcher matcher.Matcher, project, topic, format, code
 		format:    format,
 		codec:     codec,
 		buf:       make(chan []byte, bufSize),
+		shutdown:  make(chan struct{}),
 		blocking:  blocking,
 
 		bufSize:      bufSize,
@@ -130,13 +132,17 @@ func (r *PubSub) run() {
 		cnt = 0
 	}
 
+	shutdown := r.shutdown
 	for {
+		// after Shutdown: handle what is still buffered, flush and stop
+		if shutdown == nil && len(r.buf) == 0 {
+			flush()
+			return
+		}
 		select {
-		case buf, ok := <-r.buf:
-			if !ok {
-				flush()
-				return
-			}
+		case <-shutdown:
+			shutdown = nil
+		case buf := <-r.buf:
 			r.numBuffered.Dec(1)
 
 			// flush first if this new buf is likely to breach our size limit (compression is not considered so it won't be exact)
@@ -237,6 +243,12 @@ func (r *PubSub) publish(buf *bytes.Buffer, cnt int) {
 
 // Dispatch is called to submit metrics. They will be in graphite 'plain' format no matter how they arrived.
 func (r *PubSub) Dispatch(buf []byte) {
+	select {
+	case <-r.shutdown:
+		// a dispatcher that still holds a table snapshot with this route in it. nothing reads buf anymore
+		return
+	default:
+	}
 	r.dispatch(r.buf, buf, r.numBuffered, r.numDropBuffFull)
 }
 
@@ -248,7 +260,7 @@ func (r *PubSub) Flush() error {
 
 // Shutdown stops the pubsub publisher and returns with the publisher has finished in-flight work
 func (r *PubSub) Shutdown() error {
-	close(r.buf)
+	close(r.shutdown)
 	r.psTopic.Stop()
 	return nil
 }
